@@ -239,9 +239,56 @@ func cmdCheck(w *World, cfg *RunCfg, prop, replay string, t0 time.Time) int {
 		fmt.Println("DRIFT: " + d + " (function outside the verifier's subset or contract drift; its obligations are not counted)")
 	}
 	// lost obligations w.r.t. the committed baseline
-	lost := lostObligations(cfg.Verif, prop, seenObl)
+	// obligations of functions with abandoned paths are only partially decided: they do not count
+	// as present
+	driftFn := map[string]bool{}
+	for _, d := range drift {
+		driftFn[strings.SplitN(d, ":", 2)[0]] = true
+	}
+	present := map[string]bool{}
+	for n := range seenObl {
+		if i := strings.Index(n, "#"); i > 0 && driftFn[n[:i]] {
+			continue
+		}
+		present[n] = true
+	}
+	lost := lostObligations(cfg.Verif, prop, present)
 	for _, l := range lost {
+		// a property-carrying obligation of the committed baseline can no longer be generated
+		// (the function left the verifier's subset or its contract no longer applies to the code):
+		// the property is undecided there, which is reported, not passed over
 		fmt.Println("LOST-OBLIGATION: " + l)
+		why := "the obligation was not generated in this run"
+		for _, d := range drift {
+			if strings.HasPrefix(l, strings.SplitN(d, ":", 2)[0]+"#") {
+				why = d
+			}
+		}
+		os.MkdirAll(replayDir, 0o755)
+		rp := filepath.Join(replayDir, mangle(l)+".replay.txt")
+		body := fmt.Sprintf("property: %s\nobligation: %s\nstatus: lost (present in baseline_obligations.json, not generated from the current tree)\nreason: %s\n", prop, l, why)
+		confirmed := false
+		if text, ok := tryReplay(w, cfg, prop, nil, &Obligation{Name: l}, &Query{}); text != "" {
+			body += "--- replay on the real code ---\n" + text + "\n"
+			confirmed = ok
+		}
+		if confirmed {
+			body += "result: the property-level oracle of this obligation's replay template fails on the real code\n"
+			violations = append(violations, fmt.Sprintf("VIOLATION property=%s replay=%s obligation=%s", prop, rp, l))
+		} else {
+			body += "result: no-failing-input-found (the contract can no longer be checked against this code; the property is undecided for this function)\n"
+			violations = append(violations, fmt.Sprintf("VIOLATION property=%s replay=%s obligation=%s no-failing-input-found", prop, rp, l))
+		}
+		os.WriteFile(rp, []byte(body), 0o644)
+	}
+	if os.Getenv("VERIF_WRITE_BASELINE") == "1" {
+		var keep []oblRecord
+		for _, r := range recs {
+			if present[r.Name] {
+				keep = append(keep, r)
+			}
+		}
+		writeBaseline(cfg.Verif, prop, keep)
 	}
 	for _, v := range violations {
 		fmt.Println(v)
@@ -405,4 +452,41 @@ func axiomAssumptions(w *World) []string {
 		out = append(out, "axiom "+n+" (spec files; assumed, not proved)")
 	}
 	return out
+}
+
+// propertyCarrying: obligations whose disappearance means the property is no longer decided
+// (postconditions, lemma assertions, re-established invariants, sweep goals). Safety obligations
+// are keyed by instruction ordinals and legitimately come and go with harmless edits.
+func propertyCarrying(name string) bool {
+	i := strings.LastIndex(name, "#")
+	if i < 0 {
+		return false
+	}
+	k := name[i+1:]
+	for _, p := range []string{"post.", "assert.", "maintains.", "encoder.safe", "nilin.nilout", "inv."} {
+		if strings.HasPrefix(k, p) {
+			return true
+		}
+	}
+	return false
+}
+
+// writeBaseline records the property-carrying obligations discharged in this run (maintenance
+// command: VERIF_WRITE_BASELINE=1 ./check Cxx on the unchanged tree; never done by a normal run).
+func writeBaseline(verif, prop string, recs []oblRecord) {
+	path := filepath.Join(verif, "baseline_obligations.json")
+	base := map[string][]string{}
+	if data, err := os.ReadFile(path); err == nil {
+		json.Unmarshal(data, &base)
+	}
+	var names []string
+	for _, r := range recs {
+		if r.Status == "discharged" && propertyCarrying(r.Name) {
+			names = append(names, r.Name)
+		}
+	}
+	sort.Strings(names)
+	base[prop] = names
+	data, _ := json.MarshalIndent(base, "", " ")
+	os.WriteFile(path, data, 0o644)
 }
